@@ -15,7 +15,7 @@ pub fn prop() -> Prop {
     Prop {
         id: "C06",
         level: "exploration",
-        rule: "complete cross products: integer boundary lattice (0, ±1, ±2, ±7, ±2^k, ±(2^k±1), k<=60, both range ends, two seed-rotated values) squared x 11 operators x 3 syntactic forms (literal op literal; variable op literal and literal op variable inside a function, which selects the fused opcodes); 26 float values squared x 11 operators; all string pairs of length <=2 over {a,b,é,😀} x 6 comparisons; strings of 3..33 characters (around the machine-word sizes) that differ at one position, at two positions in opposite directions (every pair of positions), by a wide character, or by being a prefix, x 6 comparisons x 2 forms; all 7x7 type pairs x 13 operators; order axioms over all triples of 40-value subsets read through the interpreter. A case is one program; it is non-trivial if it parsed back to the generated tree and the reference model defines its outcome (not Ux); distinct = distinct program texts",
+        rule: "complete cross products: integer boundary lattice (0, ±1, ±2, ±7, ±2^k, ±(2^k±1), k<=60, both range ends, two seed-rotated values) squared x 11 operators x 3 syntactic forms (literal op literal; variable op literal and literal op variable inside a function, which selects the fused opcodes); 26 float values squared x 11 operators; 110 neighbouring floats (values 0, 1 and 2 units in the last place around 11 magnitudes, both signs) squared x 6 comparisons x 2 forms, and arithmetic results against the literal next to them; all string pairs of length <=2 over {a,b,é,😀} x 6 comparisons; strings of 3..33 characters (around the machine-word sizes) that differ at one position, at two positions in opposite directions (every pair of positions), by a wide character, or by being a prefix, x 6 comparisons x 2 forms; all 7x7 type pairs x 13 operators; order axioms over all triples of 40-value subsets read through the interpreter. A case is one program; it is non-trivial if it parsed back to the generated tree and the reference model defines its outcome (not Ux); distinct = distinct program texts",
         assumptions: &[
             "the reference model's operator table (refint::infix: i64 checked arithmetic within the 61-bit range, Rust f64, str ordering) is the specification",
             "operand values outside the enumerated lattices are not covered",
@@ -82,6 +82,22 @@ pub fn float_values() -> Vec<f64> {
     let mut neg: Vec<f64> = v.iter().map(|x| -x).collect();
     v.append(&mut neg);
     v.push(f64::NAN);
+    v
+}
+
+/// Immediate neighbours: values one and two units in the last place apart, at several magnitudes
+/// (equality and ordering must tell them apart: IEEE-754 comparison has no tolerance).
+pub fn float_neighbours() -> Vec<f64> {
+    let mut v = Vec::new();
+    for base in [1.0f64, 0.3, 0.1, 1.5, 123456.789, 1e-300, 1e300, 4503599627370496.0, 0.1 + 0.2, 2.0, 1e16] {
+        let b = base.to_bits();
+        for bits in [b - 2, b - 1, b, b + 1, b + 2] {
+            v.push(f64::from_bits(bits));
+            v.push(-f64::from_bits(bits));
+        }
+    }
+    v.sort_by(|a, b| a.total_cmp(b));
+    v.dedup_by(|a, b| a.to_bits() == b.to_bits());
     v
 }
 
@@ -359,6 +375,32 @@ fn run(sh: &mut Shard) {
             }
         }
     }
+    // F2b neighbouring floats: every pair of values at most a few units in the last place apart (and every
+    // pair across magnitudes), all operators; and equality of an arithmetic result with the literal next to it
+    {
+        let nb = float_neighbours();
+        for a in &nb {
+            for b in &nb {
+                for op in CMP_OPS.iter() {
+                    run_case(sh, "float-neighbours", &[es(infix(float_expr(*a), op.clone(), float_expr(*b)))]);
+                    run_case(sh, "float-neighbours", &[let_("x", float_expr(*a)), let_("y", float_expr(*b)), es(infix(id("x"), op.clone(), id("y")))]);
+                }
+            }
+        }
+        for (l, r) in [
+            (infix(flt(0.1), Operator::Add, flt(0.2)), flt(0.3)),
+            (infix(flt(0.1), Operator::Multiply, flt(3.0)), flt(0.3)),
+            (infix(flt(1.0), Operator::Divide, flt(3.0)), flt(0.3333333333333333)),
+            (infix(flt(1.1), Operator::Multiply, flt(1.1)), flt(1.21)),
+            (infix(flt(100.0), Operator::Subtract, flt(99.9)), flt(0.1)),
+            (infix(infix(flt(0.1), Operator::Add, flt(0.2)), Operator::Add, flt(0.3)), infix(flt(0.1), Operator::Add, infix(flt(0.2), Operator::Add, flt(0.3)))),
+        ] {
+            for op in CMP_OPS.iter() {
+                run_case(sh, "float-neighbours", &[es(infix(l.clone(), op.clone(), r.clone()))]);
+                run_case(sh, "float-neighbours", &[es(call(func("", &["p", "q"], vec![es(infix(id("p"), op.clone(), id("q")))]), vec![l.clone(), r.clone()]))]);
+            }
+        }
+    }
     // F2 floats
     let fv = float_values();
     for a in &fv {
@@ -483,7 +525,7 @@ fn replay(sh: &mut Shard, case: &Value) {
 }
 
 fn vacuity(m: &Merged) -> Option<String> {
-    for fam in ["int-literal", "int-var-lit", "int-lit-var", "float", "string", "string-long", "cross-type", "bool-table", "axioms"] {
+    for fam in ["int-literal", "int-var-lit", "int-lit-var", "float", "string", "string-long", "float-neighbours", "cross-type", "bool-table", "axioms"] {
         if m.counters.get(&format!("family:{fam}")).copied().unwrap_or(0) == 0 {
             return Some(format!("family {fam} produced no case"));
         }
